@@ -536,9 +536,7 @@ sb_error_t sb_trajectory_player_init(sb_trajectory_player_t* player, const sb_tr
 
     player->trajectory = trajectory;
 
-    sb_trajectory_player_rewind(player);
-
-    return SB_SUCCESS;
+    return sb_trajectory_player_rewind(player);
 }
 
 /**
